@@ -33,7 +33,10 @@ func (c scannedCtor) Key() string { return c.Pkg + "." + c.Name }
 type scanResult struct {
 	Ctors   []scannedCtor
 	Methods map[string][]string // "pkg.Type" -> exported methods declared in the package, sorted
-	Files   int
+	// exported functions func(opts ...resource.Option) resource.Option: they route resource options to one
+	// of the resources of the package's model
+	OptHooks []string
+	Files    int
 }
 
 func exprStr(fset *token.FileSet, e ast.Expr) string {
@@ -99,6 +102,10 @@ func scanTraitTree(repo string) (*scanResult, error) {
 						continue
 					}
 					if fd.Recv == nil {
+						if fieldListStr(fset, fd.Type.Params) == "...resource.Option" && fieldListStr(fset, fd.Type.Results) == "resource.Option" {
+							res.OptHooks = append(res.OptHooks, pname+"."+fd.Name.Name)
+							continue
+						}
 						if !strings.HasPrefix(fd.Name.Name, "New") || fd.Type.Results == nil || len(fd.Type.Results.List) == 0 {
 							continue
 						}
@@ -123,6 +130,7 @@ func scanTraitTree(repo string) (*scanResult, error) {
 	for k := range res.Methods {
 		sort.Strings(res.Methods[k])
 	}
+	sort.Strings(res.OptHooks)
 	sort.Slice(res.Ctors, func(i, j int) bool { return res.Ctors[i].Key() < res.Ctors[j].Key() })
 	return res, nil
 }
